@@ -255,6 +255,9 @@ def dnastring_harnesses():
         hs.append(H("c14_render__len%d" % n, ["C14"], "crate::dnastring_ops::render::<%d>()" % n, unwind=n + 4,
                     cap=300, stubs=["S1"], funcs=["DnaString::to_bytes", "DnaString::to_ascii_vec", "DnaString::reverse", "bits_to_ascii"],
                     bounds="all strings of length %d" % n))
+    for n in (1, 3):
+        hs.append(H("c14_display__len%d" % n, ["C14"], "crate::dnastring_ops::display::<%d>()" % n, unwind=n + 6, cap=400, stubs=["S4"],
+                    funcs=["Display::fmt (DnaString)", "bits_to_base"], bounds="all strings of length %d" % n))
     for n in (0, 1, 2, 31, 32, 33, 63, 64, 65):
         b = (n + 31) // 32
         hs.append(H("c12_ds_rc__len%d" % n, ["C12", "C14"], "crate::dnastring_ops::rc::<%d, %d>()" % (b, n), unwind=max(n, 33) + 3,
@@ -443,6 +446,11 @@ def msp_harnesses():
                         cap=900, mem=20, stubs=["S1", "S2"], tier="thorough" if (n, k) in ((6, 3), (6, 4), (5, 3)) else "quick",
                         funcs=["Scanner::new", "Scanner::scan", "Scanner::mp", "Scanner::incr", "MinPos::cmp", "DnaSlice::get_kmer", "Kmer::extend_right"],
                         bounds="all reads of %d bases, k=%d, P=Kmer2, all score tables over the 16 2-mers (ties and constants included)" % (n, k)))
+    for n, k in ((3, 3), (4, 3), (4, 4), (5, 4)):
+        hs.append(H("c07_simple_scan__n%d_k%d" % (n, k), ["C07", "C08"], "crate::msp_ops::simple_scan::<%d, %d>()" % (n, k), unwind=20,
+                    cap=900, mem=20, stubs=["S1", "S2"], tier="quick" if n == k else "thorough",
+                    funcs=["msp::simple_scan", "Scanner::scan", "MspIntervalP::bucket", "MspInterval::start/len/end/range/bucket"],
+                    bounds="all reads of %d bases, k=%d, P=Kmer2, all injective permutation tables, rc on and off" % (n, k)))
     for k, ns in ((3, (3, 4, 5)), (4, (4, 5))):
         for n in ns:
             hs.append(H("c08_shard_perm__n%d_k%d" % (n, k), ["C08"], "crate::msp_ops::shard::<%d, %d, true>()" % (n, k), unwind=20,
